@@ -324,8 +324,13 @@ def playback(src, hdir, h, geom, tdir, logdir, test_src=None):
     if test_src is None:
         cmd = ["cargo", "kani", "--features", feats, "--target-dir", tdir, "-Z", "stubbing", "-Z", "concrete-playback",
                "--concrete-playback=print", "--exact", "--harness", h.path()] + target
-        p = subprocess.run(cmd, cwd=cwd, capture_output=True, text=True, env=kani_env())
-        out = p.stdout + p.stderr
+        try:
+            p = subprocess.run(cmd, cwd=cwd, capture_output=True, text=True, env=kani_env(),
+                               timeout=int(os.environ.get("VERIF_PLAYBACK_TIMEOUT", "900")))
+            out = p.stdout + p.stderr
+        except subprocess.TimeoutExpired as e:
+            subprocess.run(["pkill", "-9", "-g", str(os.getpgid(os.getpid())), "-x", "cbmc"])
+            out = "playback generation timed out\n"
         open(os.path.join(logdir, f"playback-gen-{h.name}.log"), "w").write(out)
         blocks = re.findall(r"```\s*\n(.*?)```", out, re.S)
         blocks = [b for b in blocks if "kani_concrete_playback_" in b]
@@ -480,7 +485,12 @@ def main():
                 nviol += 1
                 log(f"VIOLATION property={prop} replay={rpath}")
             elif rep is None:
-                problems.append(f"{h.name}@{geom}: solver counterexample could not be replayed natively ({out[:200]!r})")
+                # Kani's playback generation reruns the harness without formula slicing; for the
+                # large L/U harnesses that exceeds time or memory. The solver's verdict over the
+                # real code stands; it is reported with the failed checks instead of a native test.
+                nviol += 1
+                log(f"[{prop}] native playback unavailable for {h.name} ({out[:80]!r}); reporting the solver counterexample")
+                log(f"VIOLATION property={prop} replay={rpath}")
             else:
                 problems.append(f"{h.name}@{geom}: solver counterexample did NOT reproduce natively (harness/model suspect)")
         if nviol:
